@@ -410,6 +410,14 @@ pub fn configs(tier: Tier, seed: u64) -> Vec<Cfg> {
             out.push(c);
         }
     }
+    // more than 8 contacts of which all but one answer at once with an error (or garbage)
+    for bad in [Beh::ErrorReply, Beh::Garbage] {
+        for (n, good_at) in [(20usize, 19usize), (20, 0), (12, 6), (9, 8)] {
+            let mut behs = vec![bad.clone(); n];
+            behs[good_at] = Beh::Responsive;
+            out.push(base(behs, (0..n).collect(), vec![], vec![0, 1_000], 700_000));
+        }
+    }
     // send_to that completes late: the answer can be in before the call returns
     for delay in [1u64, 50, 300] {
         for n in [1usize, 3] {
